@@ -52,6 +52,14 @@ def frac(x) -> str:
     return f'{n}/{d}'
 
 
+def fsci(x: float) -> str:
+    """`sign:mantissa:exp10` of the shortest round-tripping decimal of a float (for the driver's Float ops)"""
+    from decimal import Decimal
+    d = Decimal(repr(float(x)))
+    sign, digits, exp = d.as_tuple()
+    return f'{"-" if sign else "+"}:{int("".join(map(str, digits)))}:{exp}'
+
+
 def fracs(xs) -> str:
     return ','.join(frac(x) for x in xs)
 
